@@ -8,12 +8,12 @@ package harness
 // simpler choices (0 = "keep running the current task", fewest tasks, ...).
 
 type Tape struct {
-	state  uint64
-	replay bool
-	in     []uint64
-	pos    int
-	Out    []uint64
-	Labels []string // only filled when Verbose
+	state   uint64
+	replay  bool
+	in      []uint64
+	pos     int
+	Out     []uint64
+	Labels  []string // only filled when Verbose
 	Verbose bool
 	overrun int
 }
